@@ -41,7 +41,14 @@ type regOp struct {
 	out      string                // setdeco: Render output
 }
 
-var poolShapes = []string{"alpha", "Mixed Case", "ünï-cödé", "alpha.beta", "ctl\x00\n\t\xff\ufffdname", "UPPER-and-a-name-that-is-longer-than-sixty-four-bytes-xxxxxxxxxxxxxxxxxxxxxxxxxx"}
+var poolShapes = []string{"alpha", "Mixed Case", "ünï-cödé", "alpha.beta", "ctl\x00\n\t\xff\ufffdname", "UPPER-and-a-name-that-is-longer-than-sixty-four-bytes-xxxxxxxxxxxxxxxxxxxxxxxxxx", "trailing blank ", "leading-tab"}
+
+// RegOpts: what a run may do beyond registering fresh names.
+type RegOpts struct {
+	OverwriteBuiltin bool // pool gets the built-in name utf8-heavy
+	EmptyName        bool // pool gets the empty string
+	Rot              int  // which name shapes the pool starts with
+}
 
 // execCounter makes the names of every execution in this process fresh: the
 // registry has no way to forget a name, and an execution must not see what an
@@ -60,11 +67,13 @@ const emptyVariant = 101
 
 const overwrittenBuiltin = decoration.D_UTF8_HEAVY
 
-func NewRegRun(seed uint64, npool int, overwriteBuiltin ...bool) *RegRun {
+var emptyNameRegisteredInThisProcess bool
+
+func NewRegRun(seed uint64, npool int, opts RegOpts) *RegRun {
 	execCounter++
 	rr := &RegRun{prefix: fmt.Sprintf("r%x-%d-", seed&0xffffff, execCounter), Probes: map[string]int{}}
 	defer func() {
-		if len(overwriteBuiltin) > 0 && overwriteBuiltin[0] {
+		if opts.OverwriteBuiltin {
 			// this run may overwrite a built-in name ("existing entries may be
 			// overwritten").  The registry cannot forget, so the run starts by
 			// putting the original back — as a recorded registration that
@@ -75,11 +84,34 @@ func NewRegRun(seed uint64, npool int, overwriteBuiltin ...bool) *RegRun {
 			rr.hist = append(rr.hist, op)
 			rr.pool = append(rr.pool, overwrittenBuiltin)
 		}
+		if opts.EmptyName {
+			// the EMPTY STRING is a name like any other.  It cannot be made fresh per
+			// execution, so — like the built-in above — the run starts from a recorded
+			// registration of a known value, and Close leaves the empty decoration
+			// there (which reads exactly like a name never registered).
+			op := &regOp{task: -1, kind: "reg", name: "", variant: 7, inv: rr.tick()}
+			decoration.RegisterDecorationName("", variantDeco(7))
+			emptyNameRegisteredInThisProcess = true
+			op.ret = rr.tick()
+			rr.hist = append(rr.hist, op)
+			rr.pool = append(rr.pool, "")
+			var never []string
+			for _, n := range rr.never {
+				if n != "" {
+					never = append(never, n)
+				}
+			}
+			rr.never = never
+		}
 	}()
 	for i := 0; i < npool && i < len(poolShapes); i++ {
-		name := rr.prefix + poolShapes[i]
-		if i == 1 {
-			name = "zz " + poolShapes[i] + " " + rr.prefix // sorts after every built-in name
+		shape := pick(len(poolShapes), i+opts.Rot)
+		name := rr.prefix + poolShapes[shape]
+		if shape == 1 {
+			name = "zz " + poolShapes[shape] + " " + rr.prefix // sorts after every built-in name
+		}
+		if shape == 7 {
+			name = "\t" + name // sorts before every built-in name; white space at either end is part of a name
 		}
 		rr.pool = append(rr.pool, name)
 	}
@@ -90,8 +122,12 @@ func NewRegRun(seed uint64, npool int, overwriteBuiltin ...bool) *RegRun {
 	// renderer, so only the decoration-name routes (C17) use them
 	rr.neverDeco = []string{"json", "texttable"}
 	rr.subPkgNamed = "html." + rr.prefix + "dark"
-	if len(rr.pool) > 0 {
-		rr.never = append(rr.never, strings.ToUpper(rr.pool[0]), rr.pool[0]+" ")
+	for _, p := range rr.pool {
+		// (not from a dotted name: through auto an unknown "X.Y " legitimately falls back to "X")
+		if !strings.Contains(p, ".") {
+			rr.never = append(rr.never, strings.ToUpper(p), p+" ")
+			break
+		}
 	}
 	return rr
 }
@@ -106,6 +142,10 @@ func (rr *RegRun) Close() {
 		if o.kind == "reg" && isBuiltin(o.name) && !seen[o.name] {
 			seen[o.name] = true
 			decoration.RegisterDecorationName(o.name, originalBuiltin(o.name))
+		}
+		if o.kind == "reg" && o.name == "" && !seen[o.name] {
+			seen[o.name] = true
+			decoration.RegisterDecorationName("", decoration.EmptyDecoration)
 		}
 	}
 }
@@ -425,6 +465,9 @@ func (rr *RegRun) CheckC17() *Violation {
 				}
 			}
 			for _, n := range rr.never {
+				if n == "" && emptyNameRegisteredInThisProcess {
+					continue // an earlier run of this process registered it; the registry cannot forget
+				}
 				if have[n] {
 					return v("listing-phantom", "RegisteredDecorationNames() lists %q which was never registered", n)
 				}
